@@ -16,6 +16,9 @@ def check(ctx, rep):
     W.rule_M2(m, rep, 'only')
     W.rule_M2(m, rep, 'must')
     W.rule_M4_M5_M6(m, rep, want=('M5',))
+    # the count stays the number of buffered bytes across a flush inside write(): a failed flush stops the write (a swallowed
+    # error leaves `written` stale and the next flushes come too early), a successful one resets it
+    W.rule_M3(m, rep)
     W.rule_M8(m, rep)
     W.rule_M9(m, rep)
     W.rule_M10(m, rep)
